@@ -20,3 +20,5 @@ func verifPathOf(p interface{}) string { return "" }
 func verifForget(p interface{}) {}
 
 func verifOp(kind, path string, off, size int64, data []byte) *VerifFault { return nil }
+
+func verifClock(now int64) int64 { return now }
